@@ -21,7 +21,7 @@ import (
 
 func init() {
 	register("C02", propDef{
-		header: "From KV Require Import Corr.PIPE.\nFrom KV Require Labels Res.Replica Res.Image.\nFrom KV Require Gen.LegacyOrder.\n" +
+		header: "From KV Require Import Corr.PIPE.\nFrom KV Require Labels Res.Replica Res.Image Res.Selector.\nFrom KV Require Import Corr.SchemaTable.\nFrom KV Require Gen.LegacyOrder.\n" +
 			"Open Scope string_scope.\n",
 		caseType:   "casePIPE",
 		mismatchFn: "mismatchesPIPE",
@@ -180,6 +180,15 @@ type frameResult struct {
 }
 
 // normalize removes the targeted locations from a document.
+func hasVarSyntax02(files map[string]string) bool {
+	for _, text := range files {
+		if strings.Contains(text, "$$") || strings.Contains(text, "$(") {
+			return true
+		}
+	}
+	return false
+}
+
 // customFS is a field spec added through a `configurations:` file of the tree.
 type customFS struct{ Path, Kind string }
 
@@ -521,8 +530,17 @@ func runC02(r *Run, rng *Rng, tier string) error {
 			// custom transformer configuration in some trees; the trees without one that follow must not see it
 			dirs = append(dirs, "configurations")
 		}
+		if g.Chance(25) {
+			// a declared (never referenced) variable: the expander visits every varReference path
+			dirs = append(dirs, "vars")
+		}
 		t := genTree(g, treeOpts{MaxLayers: 3, Directives: dirs, ResPerLayer: 4})
 		c := mkCase02(t)
+		if hasDir(treeOpts{Directives: dirs}, "vars") && hasVarSyntax02(c.Files) {
+			// `$$` (escape) and `$(` (reference) are variable syntax: the expander may rewrite them; out of domain
+			r.Count("skipped", "vars-syntax-in-input")
+			continue
+		}
 		cls, viol, nontriv := check02(c)
 		r.Count("class", cls)
 		r.Count("layers", fmt.Sprint(len(t.Layers)))
